@@ -73,6 +73,16 @@ def statements():
         a = 2
         return _ids(db.select('id from Item where p = $a;'))
     add('expression followed by a semicolon', semicolon_terminated, [3])
+    # string literals INSIDE a $-expression: quotes and brackets in them belong to the expression, the SQL text goes on after its closing bracket
+    def strings_inside_expressions():
+        o = types.SimpleNamespace(up=lambda t: t.upper(), d={"it's": 2, 'a)b': 3, 'x"y': 4}, same=lambda t: t)
+        name = 'shadow'; p = -1                           # caller variables named like columns: SQL text swallowed into an expression would be evaluated in Python
+        return (_ids(db.select('''id from Item where note = $o.same("it's") and name <> 'x' ''')), _ids(db.select('''id from Item where p = $o.d["it's"] or note = 'it''s' ''')),
+                _ids(db.select('''id from Item where p = $o.d['a)b'] and (p > 0 or name > 'n')''')), _ids(db.select('''id from Item where p = $(o.d['x"y']) and note <> "plain"''')),
+                _ids(db.select('''id from Item where upper(note) = $o.up("it's") and (p >= 2 or name > 'Y')''')), _ids(db.select('''id from Item where note = $o.same("a$b") or note = $o.same('100%')''')),
+                [i.id for i in T.select_by_sql('''select * from Item where note = $o.same("it's (really)") or p = $(o.d["it's"] + 1) order by id''')],
+                sorted(i.id for i in T.select().filter(orm.raw_sql('''i.note = $o.same("it's") or i.p = $o.d["a)b"]'''))))
+    add('quotes and brackets inside the strings of $-expressions', strings_inside_expressions, ([3], [3], [4], [5], [3], [2, 4], [4], [3, 4]))
     # text passed through
     add('$$ is a single $', lambda: _ids(db.select("id from Item where note = 'a$$b'")), [4])
     add('% and quotes in the text', lambda: _ids(db.select("id from Item where note like '100%' or note = 'it''s' or note = '%s'")), [2, 3, 5])
